@@ -199,6 +199,27 @@ def run_case(c, d):
                                     correlation_method=d['method'])
         except Exception as exc:
             c.exception('CORRELOGRAMPSD', exc, dict(feats, method=d['method']))
+            return
+        if N >= 2 and d.get('i', 0) % 2 == 0:
+            # class form in the same configuration: the values of the function (judged by the contract on the inner
+            # call), all NFFT bins for complex data, bins 0..NFFT/2 doubled except DC and fs/2 for real data
+            try:
+                pc = spectrum.pcorrelogram(x, lag=N - 1, window='rectangular', NFFT=NFFT, scale_by_freq=False)
+                got = np.asarray(pc.psd)
+                full = np.asarray(spectrum.CORRELOGRAMPSD(np.asarray(x), np.asarray(x), lag=N - 1, window='rectangular', NFFT=NFFT))
+            except Exception as exc:
+                c.exception('pcorrelogram', exc, dict(feats, form='correlogram-class'))
+                return
+            if cplx:
+                ref = full
+            else:
+                L = NFFT // 2 + 1
+                ref = 2.0 * full[:L]
+                ref[0] /= 2.0
+                if NFFT % 2 == 0:
+                    ref[-1] /= 2.0
+            c.compare('pcorrelogram.psd-is-the-(folded)-function-result', got, ref, 1e-12, dict(feats, form='correlogram-class'),
+                      scale=float(np.max(np.abs(ref))) or 1.0, detail={'N': N, 'NFFT': NFFT})
         return
     if d['form'] == 'function2d':
         cols = max(1, d['cols'])
